@@ -381,7 +381,10 @@ DRIVE = {
     "belsShare2": D({"count": 5, "threshold": 3, "len": 32}, 1, flags=["ok_rng"]),
     "belsShare3": D({"count": 5, "threshold": 3, "len": 32}, 1),
     "belsRecover": D({"count": 3, "len": 32}, 1, extra={"count": [1, 2, 4, 5]}),
-    "belsRecover2": D({"count": 3, "len": 32}, 1, flags=["ok_num"], extra={"count": [1, 2, 4, 5]}),
+    "belsRecover2": D({"count": 3, "len": 32}, 1, extra={"count": [1, 2, 4, 5]},
+                      hand=[("ok_num", "a.ok_num = 1 \\/ a.count < 2", "ERR_BAD_PUBKEY",
+                             "key numbers in the first octets of the shares differ (the driver repeats the number of share 1 in share 2, "
+                             "which only matters when at least 2 shares are passed)")]),
     # ---- bign (level l = 128, standard curve; keys generated by the library itself)
     "bignParamsVal": D({"l": 128}, 0, hand=[("ok_params", "a.ok_params = 1", "ERR_ANY", "\\return ERR_OK iff the parameters are valid")], extra={"l": [192, 256]}),
     "bignKeypairGen": D({"l": 128}, 1, flags=["ok_params", "ok_rng"], extra={"l": [192, 256]}),
@@ -459,7 +462,9 @@ DRIVE = {
                   extra={"ld": [320, 336, 352, 511, 512, 513, 528, 0, 1, 16], "hash_len": [0, 1, 32]}),
     "dstuVerify": D({"ld": 512, "hash_len": 21}, 0, flags=["ok_params", "ok_pubkey"], auth=["ERR_ANY"], tamper=["sig0", "hash"]),
     "pfokParamsVal": D({}, 0, hand=[("ok_params", "a.ok_params = 1", "ERR_ANY", "\\return ERR_OK iff the parameters are valid")]),
-    "pfokKeypairGen": D({}, 1, flags=["ok_params", "ok_rng"]),
+    # ok_rng is not driven for pfokKeypairGen: pfok.h also states "\expect{ERR_BAD_INPUT} all input pointers are valid";
+    # the implementation answers a null rng with ERR_BAD_INPUT, which the header admits (coordinator's triage).
+    "pfokKeypairGen": D({}, 1, flags=["ok_params"]),
     "pfokPubkeyVal": D({}, 0, flags=["ok_params"], hand=[("ok_pubkey", "a.ok_pubkey = 1", "ERR_ANY", "\\return ERR_OK iff the key is valid")]),
     "pfokPubkeyCalc": D({}, 1, flags=["ok_params", "ok_privkey"]),
     "pfokDH": D({}, 1, flags=["ok_params", "ok_privkey", "ok_pubkey"]),
